@@ -41,6 +41,8 @@ def main():
         base, vmap, args = '/tmp/wt4', {'a': 'e', 'b': 'f'}, args[1:]
     if args and args[0] == '--round4':
         base, vmap, args = '/tmp/wt5', {'a': 'g', 'b': 'h'}, args[1:]
+    if args and args[0] == '--round6':
+        base, vmap, args = '/tmp/wt7', {'a': 'k', 'b': 'l'}, args[1:]
     if args and args[0] == '--round5':
         base, vmap, args = '/tmp/wt6', {'a': 'i', 'b': 'j'}, args[1:]
     ids = args or ['C%02d' % i for i in range(1, 17)]
